@@ -73,10 +73,38 @@ def build_rewriter():
     return out
 
 
+def tree_hash(root, skip=(".git",)):
+    h = hashlib.sha256()
+    for d, dirs, files in os.walk(root):
+        dirs[:] = sorted(x for x in dirs if x not in skip)
+        for f in sorted(files):
+            p = os.path.join(d, f)
+            try:
+                data = open(p, "rb").read()
+            except OSError:
+                continue
+            h.update(p.encode() + b"\0" + hashlib.sha256(data).digest())
+    return h.hexdigest()
+
+
+def fingerprint(kind, only):
+    h = hashlib.sha256()
+    h.update(("%s|%s|" % (kind, ",".join(only))).encode())
+    h.update(tree_hash(REPO).encode())
+    for sub in ("engine", "cmd", "overlays", os.path.join("tools", "rewrite")):
+        h.update(tree_hash(os.path.join(VERIF, sub)).encode())
+    hd = os.path.join(VERIF, "harness")
+    for d in sorted(os.listdir(hd)):
+        if os.path.isdir(os.path.join(hd, d)) and (not only or d in only):
+            h.update(tree_hash(os.path.join(hd, d)).encode())
+    h.update(open(os.path.abspath(__file__), "rb").read())
+    return h.hexdigest()
+
+
 def main():
     kind = sys.argv[1] if len(sys.argv) > 1 else "plain"
     os.makedirs(BUILD, exist_ok=True)
-    lock = open(os.path.join(BUILD, ".lock"), "w")
+    lock = open(os.path.join(BUILD, ".lock-%s-%s" % (kind, os.environ.get("VERIF_ONLY", "all").lower().replace(",", "-"))), "w")
     fcntl.flock(lock, fcntl.LOCK_EX)
     t0 = time.time()
     for f in ("go.mod", "go.sum"):
@@ -91,6 +119,13 @@ def main():
     walk_go(os.path.join(VERIF, "cmd"), os.path.join(VX, "cmd"), overlay)
     only = [x for x in os.environ.get("VERIF_ONLY", "").lower().split(",") if x]
     suffix = ("-only-" + "-".join(only)) if only else ""
+    out = os.path.join(BUILD, ("verifx-sched" if kind == "sched" else "verifx") + suffix)
+    fp = fingerprint(kind, only)
+    if os.path.exists(out) and os.path.exists(out + ".fp") and open(out + ".fp").read() == fp:
+        # the binary was built from exactly these sources (content hash of /repo's working tree,
+        # the harness, the engines and the overlays): nothing to rebuild
+        fcntl.flock(lock, fcntl.LOCK_UN)
+        return
     gen = os.path.join(BUILD, "gen", kind + suffix)
     os.makedirs(gen, exist_ok=True)
     # the list of registered checks is generated from the harness directories
@@ -134,7 +169,6 @@ def main():
             overlay[src] = dst
     ovpath = os.path.join(BUILD, "overlay-%s%s.json" % (kind, suffix))
     open(ovpath, "w").write(json.dumps({"Replace": overlay}, indent=1))
-    out = os.path.join(BUILD, ("verifx-sched" if kind == "sched" else "verifx") + suffix)
     cmd = ["go", "build", "-tags", "verif", "-overlay", ovpath, "-modfile", os.path.join(BUILD, "go.mod"),
            "-o", out + ".new", MOD + "/internal/verifx/cmd/verifx"]
     r = subprocess.run(cmd, cwd=REPO, env=goenv(), capture_output=True, text=True)
@@ -142,6 +176,7 @@ def main():
         print("BUILD-FAILED\n" + r.stdout + r.stderr)
         sys.exit(2)
     os.replace(out + ".new", out)
+    open(out + ".fp", "w").write(fp)
     if os.environ.get("VERIF_VERBOSE"):
         print("built %s in %.1fs" % (out, time.time() - t0), file=sys.stderr)
     fcntl.flock(lock, fcntl.LOCK_UN)
